@@ -1,30 +1,78 @@
-(* C10/Properties.v -- pinned statements of property C10 (ownership model of the term index). *)
+(* C10/Properties.v -- pinned statements of property C10 (ownership model of the term index).
+   Designs (Model.clone_mode): Owned = the current code (i2t owns a copy of every term); Rebuilt = i2t borrows
+   from the keys, Clone rebuilds it; Derived = i2t borrows, derived Clone.  The theorems hold for every design
+   but Derived; the two defects found in the borrowing designs are kept as refuted witnesses. *)
 From Sophia.C10 Require Import Model Proofs.
 
-(* every reachable world is well-formed: stores own pairwise disjoint, never-freed allocations
-   and each i2t is the image of the store's own keys *)
-Check (reachable_wf : forall ops, WF (run Rebuilt ops)).
-Check (step_wf : forall w o, WF w -> WF (step Rebuilt w o)).
+(* every reachable world is well-formed: stores own pairwise disjoint, never-freed allocations (the text of
+   their keys AND of the entries of i2t that own theirs), each i2t is aligned with the store's own keys *)
+Check (reachable_wf : forall m ops, m <> Derived -> WF m (run m ops)).
+Check (step_wf : forall m w o, m <> Derived -> WF m w -> WF m (step m w o)).
 (* no read of a live store touches released memory or another store's memory, after ANY history
    interleaving insert / clone / drop (of originals or clones) / swap-move / growth *)
-Check (reachable_read_safe : forall ops sid s i, In (sid, s) (live (run Rebuilt ops)) ->
-  read (run Rebuilt ops) s i = ReadOutOfRange \/ exists t, read (run Rebuilt ops) s i = ReadOk t).
+Check (reachable_read_safe : forall m ops sid s i, m <> Derived -> In (sid, s) (live (run m ops)) ->
+  read (run m ops) s i = ReadOutOfRange \/ exists t, read (run m ops) s i = ReadOk t).
+Check (reachable_read_safe Owned : forall ops sid s i, Owned <> Derived -> In (sid, s) (live (run Owned ops)) ->
+  read (run Owned ops) s i = ReadOutOfRange \/ exists t, read (run Owned ops) s i = ReadOk t).
 (* the audit hook reports all-true on every reachable store *)
-Check (reachable_audit : forall ops sid s, In (sid, s) (live (run Rebuilt ops)) ->
+Check (reachable_audit : forall m ops sid s, m <> Derived -> In (sid, s) (live (run m ops)) ->
   forallb (fun b => b) (audit s) = true).
 (* independence: an operation on another store changes neither this store nor what it returns *)
 Check (frame : forall m w o sid, touches o sid = false ->
   find_store (live (step m w o)) sid = find_store (live w) sid).
-Check (independent_reads : forall w o sid s i, WF w -> touches o sid = false ->
+Check (independent_reads : forall m w o sid s i, m <> Derived -> WF m w -> touches o sid = false ->
   find_store (live w) sid = Some s ->
-  find_store (live (step Rebuilt w o)) sid = Some s
-  /\ read (step Rebuilt w o) s i = read w s i).
+  find_store (live (step m w o)) sid = Some s
+  /\ read (step m w o) s i = read w s i).
 (* a clone has the content of its original at the time of cloning *)
 Check (clone_keys_spec : forall ks from ks' nx, clone_keys ks from = (ks', nx) ->
   map k_index ks' = map k_index ks /\ map k_term ks' = map k_term ks /\ length ks' = length ks
   /\ from <= nx
   /\ (forall a, In a (flat_map k_owned ks') -> from <= a < nx)
   /\ NoDup (flat_map k_owned ks')).
+Check (clone_slots_spec : forall l from l' nx, clone_slots l from = (l', nx) ->
+  map s_term l' = map s_term l /\ map s_self l' = map s_self l
+  /\ from <= nx
+  /\ (forall a, In a (flat_map slot_owned l') -> from <= a < nx)
+  /\ NoDup (flat_map slot_owned l')).
+
+(* ---- terms cloned out of a store (Clone::clone of what get_term / triples() / quads() hand out) ---- *)
+(* Owned design: after any history, a term cloned out of any live store stays readable whatever is done
+   afterwards, to that store (drop included) or to any other *)
+Check (escaped_clone_safe : forall ops sid s i sl ops',
+  In (sid, s) (live (run Owned ops)) -> nth_error (i2t s) i = Some sl ->
+  read_term (fold_left (step Owned) ops' (fst (clone_term (run Owned ops) sl))) (snd (clone_term (run Owned ops) sl))
+  = ReadOk (s_term sl)).
+(* and cloning it out disturbs nothing *)
+Check (clone_term_wf : forall m w sl, WF m w ->
+  WF m (fst (clone_term w sl)) /\ live (fst (clone_term w sl)) = live w /\ freed (fst (clone_term w sl)) = freed w).
+
+(* ---- compound operations of the widened harness ---- *)
+(* a clone returns, index by index, what its original returned when it was cloned; the original is unchanged *)
+Check (clone_same_content : forall m w s w' s', m <> Derived -> Inv_s m s -> clone_store m w s = (w', s') ->
+  content s' = content s).
+Check (clone_step_content : forall m w src dst s, m <> Derived -> WF m w ->
+  find_store (live w) src = Some s -> find_store (live w) dst = None ->
+  exists s', find_store (live (step m w (Clone src dst))) dst = Some s'
+             /\ content s' = content s
+             /\ find_store (live (step m w (Clone src dst))) src = Some s).
+(* Clone::clone_from *)
+Check (clone_from_content : forall m w src dst s sd, m <> Derived -> WF m w -> src <> dst ->
+  find_store (live w) src = Some s -> find_store (live w) dst = Some sd ->
+  let w' := fold_left (step m) (clone_from_ops src dst) w in
+  exists s', find_store (live w') dst = Some s' /\ content s' = content s
+             /\ find_store (live w') src = Some s).
+(* std::mem::take / mem::replace: the content moves, an empty store stays, nothing is allocated or freed *)
+Check (take_spec : forall m w src dst s,
+  find_store (live w) src = Some s -> find_store (live w) dst = None ->
+  let w' := fold_left (step m) (take_ops src dst) w in
+  find_store (live w') dst = Some s /\ find_store (live w') src = Some empty_store
+  /\ next w' = next w /\ freed w' = freed w).
+(* the bulk constructors are the fold of the single inserts from the empty store: after any history the new
+   store returns the terms of the source sequence, first occurrences only, in order *)
+Check (collect_content : forall m ops d ts, m <> Derived -> find_store (live (run m ops)) d = None ->
+  exists s, find_store (live (run m (ops ++ collect_ops d ts))) d = Some s
+            /\ content s = add_new [] (map (fun x => fst (fst x)) ts)).
 
 Print Assumptions reachable_wf.
 Print Assumptions step_wf.
@@ -33,5 +81,18 @@ Print Assumptions reachable_audit.
 Print Assumptions frame.
 Print Assumptions independent_reads.
 Print Assumptions clone_keys_spec.
+Print Assumptions clone_slots_spec.
+Print Assumptions escaped_clone_safe.
+Print Assumptions clone_term_wf.
 Print Assumptions derived_clone_refuted.
+Print Assumptions term_clone_escapes_refuted.
 Print Assumptions rebuilt_clone_ok.
+Print Assumptions owned_clone_ok.
+Print Assumptions term_clone_owned_ok.
+Print Assumptions clone_same_content.
+Print Assumptions clone_step_content.
+Print Assumptions clone_from_content.
+Print Assumptions take_spec.
+Print Assumptions collect_content.
+Print Assumptions collect_example.
+Print Assumptions compound_example.
